@@ -16,7 +16,8 @@ EXPLANATION = (
     "an allow/deny-list constraint is preceded by validation of each listed value against the inner type; (W2) required "
     "properties get no serde default and `deny_unknown_fields` is emitted from the IR flag; (W3) where the closedness of an "
     "enum is accumulated over its variants the accumulation can only close (`|=` / `= true`): a plain reassignment forgets a "
-    "closed variant converted earlier."
+    "closed variant converted earlier; (W4) a string schema is given the unconstrained `String` only when its validation is "
+    "absent or has no `maxLength`, no `pattern` and no `minLength` other than 0; anything else goes to the constrained newtype."
 )
 ASSUMPTIONS = ["serde enforces tuple arity, tags and scalar JSON types", "regress implements ECMA-262 patterns"]
 
@@ -207,3 +208,40 @@ def run(facts, rep, tier):
             rep.ob("C05.W3", "closedness-accumulates:" + key, kind == "or", "`%s` can only close" % how if kind == "or" else
                    "`%s` overwrites the flag on every variant: a variant with additionalProperties:false that is not the last one loses #[serde(deny_unknown_fields)] and accepts unknown members" % how, n.get("sp"))
     rep.floor("C05.W3", "accumulations of deny_unknown_fields over variants", n_j, 4)
+
+    # W4: only vacuous string validations become plain String
+    sites = []
+    for hh in c.user_fns():
+        for m, _ in nodes(hh["body"], "match"):
+            if m.get("src") == "normal" and "StringValidation" in c.ty(m.get("scty")):
+                sites.append((hh, m))
+    if rep.floor("C05.W4", "case analysis of a string schema's validation", len(sites), 1):
+        hh, m = sites[0]
+        n_plain = 0
+        for a in m["arms"]:
+            res = src(block_last(a["body"]))
+            if "TypeEntryDetails::String" not in res or "from_metadata" in res:
+                continue
+            n_plain += 1
+            pats = a["pat"]["pats"] if a["pat"].get("k") == "or" else [a["pat"]]
+            for alt in pats:
+                structs = [x for x, _ in walk(alt) if x.get("k") == "struct" and x["path"].endswith("StringValidation")]
+                key = "plain-string-only-if-vacuous#%d" % sum(1 for o in rep.obligations if o["key"].startswith("C05.W4/plain-string-only-if-vacuous#"))
+                if not structs:
+                    ok = psrc(alt) == "None"
+                    rep.ob("C05.W4", key, ok, "`None` (no validation)" if ok else "alternative `%s` sends a string schema to the unconstrained String without looking at its validation" % psrc(alt)[:60], a.get("sp"))
+                    continue
+                bad = []
+                seen = set()
+                for fname, fp in structs[0]["fields"]:
+                    seen.add(fname)
+                    t = psrc(fp)
+                    if fname in ("max_length", "pattern") and t != "None":
+                        bad.append("%s: %s" % (fname, t))
+                    if fname == "min_length" and t not in ("None", "Some(0)", "None | Some(0)", "Some(0) | None"):
+                        bad.append("%s: %s" % (fname, t))
+                if structs[0].get("rest") or not {"max_length", "min_length", "pattern"} <= seen:
+                    bad.append("pattern does not name all of max_length, min_length, pattern")
+                rep.ob("C05.W4", key, not bad, "StringValidation{max_length: None, min_length: None, pattern: None}" if not bad else
+                       "a string schema with %s becomes the unconstrained `String`: the bound it states is not represented, so values that violate it are accepted by Deserialize, FromStr and TryFrom" % ", ".join(bad), a.get("sp"))
+        rep.floor("C05.W4", "arms yielding the unconstrained String", n_plain, 1)
